@@ -566,7 +566,7 @@ def fam_poll(tier, outdir):
     consts = {"Handles": "{1, 2}", "MaxTime": 3, "MaxCalls": 6, "PipeCap": 4, "MaxOut": 1, "ExitCodes": "{3}", "TermDelay": 1,
               "DlOpts": "{0, 2}", "Timeouts": "{0, 2}", "Masks": "{10, 15}", "MaxSrc": 2, "MaxPolls": 1}
     if tier == "thorough":
-        consts.update({"Timeouts": "{0, 1, 3}", "Masks": "{2, 10, 15, 0, 31}", "MaxSrc": 3})   # (two polls per behaviour: > 10 M scripts, not within the hour; the simulation pass has up to 6)
+        consts.update({"Timeouts": "{0, 1, 3}", "Masks": "{2, 10, 15, 0, 31}"})   # (three sources or two polls per behaviour exhaustively: not within the hour; the simulation pass has three sources and up to 6 polls)
     cfg = os.path.join(outdir, "MC_Poll.cfg")
     write_cfg(cfg, "Spec", consts, ["TypeOK", "LifeChild", "PollBounded"], export_stride=10 if tier == "quick" else 1)
     res = run_tlc_export("poll", "MC_Poll", cfg, outdir, tier, asan_stride=16 if tier == "quick" else 32, tlc_workers=10,
